@@ -9,4 +9,11 @@ func init() {
 		Bounds:   "params (nd = number of digits of the declared SIZE, 0 = none; spelling of the SIZE keyword); symbolic: an extension that allows the sender or stays silent, symbolic limit in [1,60000], body length in [0,70000] (content never inspected), declared size digits",
 		Assumes:  []string{"the MAIL parameter regexps are evaluated on a representative of the digit class (patterns contain no digit-specific atoms)"},
 	})
+	register(Harness{
+		Prop: "C03", Pkg: "server/smtp", Func: "VerifC06Size",
+		Quick:    [][]int64{{0, 0}},
+		Thorough: [][]int64{{0, 0}, {2, 0}},
+		Desc:     "end of DATA discards the envelope also when the message is refused for its size: the next transaction on the connection delivers to its own recipient only (see C06)",
+		Bounds:   "see C06",
+	})
 }
